@@ -103,6 +103,28 @@ pub fn enumerate() -> Vec<String> {
         for i in p { s.push(' '); s.push_str(ct_tails[i]); }
         v.push(s);
     }
+    // external / Hive-style table storage clauses in every order
+    let ext_tails = ["STORED AS TEXTFILE", "STORED AS INPUTFORMAT 'in.fmt' OUTPUTFORMAT 'out.fmt'", "LOCATION '/data/x'", "ROW FORMAT DELIMITED", "ROW FORMAT SERDE 'a.b.C'", "TBLPROPERTIES ('k' = 'v')", "PARTITIONED BY (p INT)", "CLUSTERED BY (a) INTO 4 BUCKETS", "COMMENT 'c'"];
+    for h in ["CREATE EXTERNAL TABLE t (a INT)", "CREATE TABLE t (a INT)", "CREATE OR REPLACE EXTERNAL TABLE IF NOT EXISTS db.t (a INT, b STRING)"] {
+        for p in perms_upto3(&ext_tails) {
+            if p.len() > 2 { continue; }
+            let mut s = h.to_string();
+            for i in p { s.push(' '); s.push_str(ext_tails[i]); }
+            v.push(s);
+        }
+    }
+    // row-pattern quantifiers with boundary values (equal bounds, zero, open ends)
+    for q in ["", "*", "+", "?", "{2}", "{2,}", "{,3}", "{2,3}", "{2,2}", "{0,0}", "{1,1}", "*?", "+?", "{2,3}?"] {
+        v.push(format!("SELECT * FROM t MATCH_RECOGNIZE(PATTERN (A{q} B) DEFINE A AS true)"));
+        v.push(format!("SELECT * FROM t MATCH_RECOGNIZE(PARTITION BY p ORDER BY o PATTERN ((A | B){q} C) DEFINE A AS a > 1, B AS b < 2)"));
+    }
+    // numeric parameter pairs with equal / zero / large values
+    for (a, b) in [(1u64, 2u64), (2, 2), (0, 0), (18446744073709551615, 1)] {
+        v.push(format!("SELECT CAST(x AS DECIMAL({a}, {b})), CAST(y AS VARCHAR({a})), CAST(z AS TIMESTAMP({b}) WITH TIME ZONE)"));
+        v.push(format!("SELECT * FROM t LIMIT {a} OFFSET {b}"));
+        v.push(format!("SELECT * FROM t TABLESAMPLE (BUCKET {a} OUT OF {b})"));
+        v.push(format!("SELECT SUBSTRING(s FROM {a} FOR {b}), OVERLAY(s PLACING 'x' FROM {a} FOR {b}), s[{a}:{b}]"));
+    }
     // column option orders
     let col_opts = ["NOT NULL", "NULL", "DEFAULT 1", "PRIMARY KEY", "UNIQUE", "REFERENCES u (id) ON DELETE CASCADE", "CHECK (a > 0)", "COLLATE \"de\"", "AUTO_INCREMENT", "COMMENT 'c'", "GENERATED ALWAYS AS (b + 1) STORED", "ON UPDATE CURRENT_TIMESTAMP"];
     for p in perms_upto3(&col_opts) {
